@@ -30,6 +30,8 @@ func init() {
 	reg("C01", "C01.R11", "E2", "the flag that lets a batch bypass the send accumulates over the whole batch; ForEach visits every deliverable event (same rule as C19.R5)", 1, ruleForEachShape)
 	reg("C01", "C01.R12", "E1+E2", "batches are filled in arrival order and committed front to back (same rule as C02.R3)", 1, ruleFIFOBatchFill)
 	reg("C01", "C01.R13", "E2", "an exhausted batch reaches the commit only through the error callback / dead-queue hand-over (same rule as C09.R2)", 1, ruleExhaustionPath)
+	reg("C01", "C01.R14", "E2", "Propagate clears the holder's busy mark before the flushed event re-enters the chain: the processor cannot take the next event of the stream while the flushed one is still on its way (same rule as C02.R8)", 1, rulePropagateResetsBusy)
+	reg("C01", "C01.R15", "E2", "a recycled event is a regular event again: a former split parent is not skipped by the send and then committed (same rule as C05.R8)", 2, ruleRecycledEventIsRegular)
 }
 
 // notifyFn returns the function containing the single input-notification site and the
@@ -603,6 +605,16 @@ func ruleSequencedRegion(c *Ctx, r *Rule) {
 		}
 		r.Ob(ok, name+"|counter-store|"+c.fnName(a.fn), a.in.Pos(), "Batcher."+seqField+" is written only in the sequenced commit, under the lock, by +1")
 		if a.fn == fn {
+			// every sealed batch takes its turn: no way out of the commit function misses the increment
+			// (a batch emptied for the dead queue still owns a sequence number; if it leaves without
+			// advancing the counter every later batch waits for ever)
+			inc := a.in
+			skip, w0 := c.pathExists(fn, nil, isReturn, func(in ssa.Instruction) bool { return in == inc })
+			msg0 := "the counter is advanced on every path through the commit function"
+			if skip {
+				msg0 = "a path reaches the return at " + c.pos(w0.Pos()) + " without advancing the counter: the batches sealed after this one wait for their turn for ever"
+			}
+			r.Ob(!skip, name+"|every-batch-takes-its-turn", a.in.Pos(), msg0)
 			// (d) broadcast after the increment on every path to return
 			isB := func(in ssa.Instruction) bool {
 				for _, b := range bcasts {
